@@ -188,7 +188,7 @@ CONFIGS = [("default", None), ("lsq_linear", "lsq_linear"), ("lsq", "lsq")]
             "solve(): the augmented system of O05.1/O05.2 with the right-hand side rounded to 3 decimals reaches the selected back end "
             "(inversion only if square, nonsingular and acceptable, else the non-negative fallback); result i goes to internal interface i and to "
             "each of its mesh edges; multiplier dropped; nothing else is written; no exception escapes; non-negative when negatives are disallowed",
-            tier="Pn", known={"fix_stress": "KF-C05-fix-stress"})
+            tier="Pn")
 def o05_3(tier):
     def mk(shape, rows, method, allow_neg, singular):
         def h(ctx):
@@ -278,8 +278,25 @@ def o05_3(tier):
     if tier != "quick":
         out.append(("double_y,4x5,default,allow_negatives=False", mk("double_y", 4, None, False, False)))
         out.append(("double_y,5x5-square,default,allow_negatives=False", mk("double_y", 5, None, False, False)))
-    out.append(("fix_stress", mk_fix("tri_star", 2)))
     return out
+
+
+@obligation("O05.3f", ["C05", "C10"], ["forsys.fmatrix:ForceMatrix.solve", "forsys.fmatrix:ForceMatrix.fix_one_stress"],
+            "solve(method='fix_stress') completes, reports one value per internal interface and leaves the stored matrix unmodified",
+            tier="Pn", known={"fix_stress": "KF-C05-fix-stress"})
+def o05_3f(tier):
+    def mk_fix(shape, rows):
+        def h(ctx):
+            m, fr, fm, internal, used, mm, t0, _ = solve_fixture(ctx, shape, 1, rows)
+            log = []
+            if ctx.mode == "sym":
+                install_solvers(ctx, log)
+            res = ctx.callm(fm, "solve", ctx.dict(), method="fix_stress")
+            ctx.ensure(len(ctx.keys(res)) == len(internal), "one reported value per internal interface")
+            M2 = [ctx.list_of(r) for r in ctx.list_of(ctx.get(fm, "matrix"))]
+            ctx.ensure(len(M2) == rows and all(len(r) == len(used) for r in M2), "solve() does not modify the stored matrix")
+        return h
+    return [("fix_stress", mk_fix("tri_star", 2))]
 
 
 @obligation("O16.5", ["C16", "C10", "C05"],
